@@ -245,8 +245,8 @@ def worker(ctx):
         ops.append(dict(k='probe', text=texts[0], dir=draw(st.integers(0, 7)), enc=draw(st.sampled_from([1, 2, 4])), font=-1, fv=-1))
         ops.append(dict(k='report'))
         case = dict(base, ops=ops, opts=draw(st.sampled_from([0, 0, 2, 4, 6])))
-        if base['kind'] == 'spec' and draw(st.integers(0, 3)) == 0:
-            case['corrupt'] = [[draw(st.integers(250, 999)), draw(st.sampled_from([0, 1, 2, 3, 0x7F, 0x80, 0xFF, 0x20, 0x31]))] for _ in range(draw(st.integers(1, 3)))]
+        if base['kind'] == 'spec' and draw(st.integers(0, 1)) == 0:
+            case['corrupt'] = [[draw(st.integers(400, 999)), draw(st.sampled_from([0, 1, 2, 3, 0x7F, 0x80, 0xFF, 0x20, 0x31]))] for _ in range(draw(st.integers(1, 3)))]
         return case
 
     def make(deco):
